@@ -328,3 +328,42 @@ prop(
     ],
     assumptions=["xhttp.Client.DoTimeout does not touch the plugin's buffers (pure) and accepts the whole body iff it returns nil"],
 )
+
+prop(
+    "C17",
+    level="other",
+    design_ref="DESIGN.md section 3, C17",
+    groups=[(["./plugin/action/mask"], r"^\(\*Mask\)\.(maskValue|maskSection)$")],
+    canaries=[("./plugin/action/mask", "replay/C17/zz_replay_c17_test.go", "TestVerifReplayC17Tail")],
+    known_canaries=[("./plugin/action/mask", "replay/C17/zz_replay_c17_test.go", "TestVerifReplayC17Order")],
+    claim=(
+        "maskValue under contract against a regexp model that promises only what the library guarantees (every submatch pair is (-1,-1) or 0<=s<=e<=len, nothing about the order of groups): "
+        "all index computations on the match vector are in range for validated group numbers, the tail is copied from the end of the last masked section, and the tiling condition "
+        "(each copied piece value[prevFinish:curStart] starts where the previous masked section ended) is the slice-bound obligation - it FAILS for nested / out-of-order groups: KNOWN FINDING (open, replayed). "
+        "maskSection: cut appends nothing, replace appends exactly the word, mask appends at most max_count and at most one asterisk per byte of the section."
+    ),
+    undecided=[
+        "field selection (traverseTree over insane-json trees, process / ignore field lists), applied mark and metrics: third-party tree, not under contract",
+        "exact asterisk count equals the rune count (utf8.RuneCount is only bounded here)",
+    ],
+    assumptions=["regexp.FindAllSubmatchIndex / NumSubexp lib contracts", "group numbers validated by cfg.VerifyGroupNumbers (requires)"],
+)
+
+prop(
+    "C13",
+    level="other",
+    design_ref="DESIGN.md section 3, C13",
+    groups=[(["./plugin/action/mask"], r"^\(\*Mask\)\.(maskValue|maskSection)$")],
+    canaries=[("./plugin/action/mask", "replay/C17/zz_replay_c17_test.go", "TestVerifReplayC17Tail")],
+    known_canaries=[("./plugin/action/mask", "replay/C17/zz_replay_c17_test.go", "TestVerifReplayC17Order")],
+    claim=(
+        "No-panic of the index / slice arithmetic on event bytes in the action code brought under contract so far: mask.maskValue and maskSection (every index into the submatch vector and every slice of the value, for all values and all validated group lists). "
+        "One fix (tail copied from -1) and one open known finding (nested / out-of-order groups) came out of it."
+    ),
+    undecided=[
+        "the full statement (27 plugins x every accepted configuration x every JSON event, result still well-formed JSON) lives in insane-json's mutable node graph (third-party): not applicable to contracts on file.d code",
+        "k8s multiline, convert_utf8_bytes, hash, rename, json_extract index arithmetic: not yet under contract",
+        "stateful sequences of events",
+    ],
+    assumptions=["as C17"],
+)
